@@ -121,12 +121,20 @@ def generate(seed, prop, tier, index=0):
                 ops.append(["periodic"])
                 if rng.random() < 0.1:
                     dash()                        # selection changes mid-period must not switch modes
-            if rng.random() < 0.9:
+            if rng.random() < 0.8:
                 ops.append(["disable"])
                 for _ in range(rng.choice([0, 0, 1, 2])):
                     ops.append(["adv", GRID_US])
                     ops.append([rng.choice(["periodic", "disable"])])   # stray calls while inactive
+            elif rng.random() < 0.5:
+                ops.append(["disable"])
             else:
+                # the period ends without disable(); the selection may change before the next start()
+                dash()
+                ops.append(["start"])
+                for _ in range(rng.choice([1, 2, 4])):
+                    ops.append(["adv", GRID_US])
+                    ops.append(["periodic"])
                 ops.append(["disable"])
         else:
             n = rng.choice([0, 1, 2, 5, 12])
@@ -403,8 +411,12 @@ def execute(plan, trace=False):
                     m_autosel = op[1]
                     fault("dashboard_auto_selector")
                 elif k == "start":
-                    if m_active is not None or exited:
+                    if exited:
                         continue
+                    if m_active is not None:
+                        # a new period begins although disable() was never called for the previous one
+                        # (allowed: "it is okay to not call disable()"): the mode is chosen afresh
+                        probe("start_without_disable")
                     names_ok = choose()
                     t_start = world.now_us()
                     m_active, m_active_cid = names_ok, None
